@@ -82,7 +82,8 @@ def run_vector(v):
     tr['bounds'] = {'h': False, 'got': [], 'exc': ''}
     tr['back'] = {'h': False, 'v': [], 'idx': [], 'strict': False,
                   'exc': ''}
-    tr['synth'] = {'h': False, 'got': [], 'bgot': [], 'exc': ''}
+    tr['synth'] = {'h': False, 'got': [], 'bgot': [], 'exc': '',
+                   'shift': 0, 'sgot': []}
     tr['dt64'] = {'h': False, 'got': [], 'exc': ''}
     kind = v['kind']
     try:
@@ -177,9 +178,35 @@ def run_vector(v):
             add_time_variable(g, 'time_bounds')
             tb = g.getTimes(bounds=True)
             tr['synth'] = {'h': True, 'got': [civil(t) for t in tt],
-                           'bgot': [civil(t) for t in tb], 'exc': ''}
+                           'bgot': [civil(t) for t in tb], 'exc': '',
+                           'shift': 0, 'sgot': []}
+            # the same file starting `shift` days later gets its own CF time
+            # variable; the two are stacked along TSTEP: the decoded times are
+            # the instants of the first followed by those of the second
+            import datetime as dtm
+            shift = v.get('shift', 0)
+            ds = v['dates'] if kind == 'tflag' else [v['sdate']]
+            if shift and all(1900001 <= d <= 2100365 and 1 <= d % 1000 <= 365
+                             for d in ds):
+                def later(d):
+                    x = dtm.date(d // 1000, 1, 1) + dtm.timedelta(
+                        days=d % 1000 - 1 + shift)
+                    return x.year * 1000 + x.timetuple().tm_yday
+                f2 = f.copy()
+                if kind == 'tflag':
+                    f2.variables['TFLAG'][:, 0, 0] = [later(d) for d in ds]
+                    f2.SDATE = np.int32(later(ds[0]))
+                else:
+                    f2.SDATE = np.int32(later(ds[0]))
+                add_time_variable(f2, 'time')
+                g1 = f.copy()
+                add_time_variable(g1, 'time')
+                st = g1.stack(f2, 'TSTEP')
+                tr['synth']['shift'] = shift
+                tr['synth']['sgot'] = [civil(t) for t in st.getTimes()]
         except Exception as ex:
             tr['synth'] = {'h': False, 'got': [], 'bgot': [],
+                           'shift': 0, 'sgot': [],
                            'exc': '%s: %s' % (type(ex).__name__,
                                               str(ex)[:100])}
     return tr
@@ -249,11 +276,13 @@ def gen_vectors(rnd, tier):
                 times.append(int(t.strftime('%H%M%S')))
             vs.append({'kind': 'tflag', 'dates': dates, 'times': times,
                        'tstep': tstep, 'want_bounds': True,
-                       'want_synth': True})
+                       'want_synth': True,
+                       'shift': rnd.choice([0, 1, 2, 30, 366])})
         else:
             vs.append({'kind': 'sdate', 'sdate': sdate, 'stime': stime,
                        'tstep': tstep, 'n': n, 'want_bounds': True,
-                       'want_synth': True})
+                       'want_synth': True,
+                       'shift': rnd.choice([0, 1, 2, 30, 366])})
     for i in range(100 if tier == 'quick' else 1000):
         n = rnd.randint(1, 3)
         base = rnd.choice([0, 24, 8760, 140256, 333333])
